@@ -298,6 +298,37 @@ def write_output_document(
         doc.prepare_for_dump(yaml_editor, args.output)
         dumps.append(doc.data)
 
+    # Render every document before any file is touched:  whether a document
+    # can be written in the format chosen (by the first document) is known
+    # only once it has been; a failure while writing into the output file
+    # would leave a part of the result -- or a truncated file -- behind.
+    rendered = StringIO()
+    if document_is_json:
+        if len(dumps) > 1:
+            for dump in dumps:
+                if args.json_indent > -1:
+                    print(
+                        json.dumps(Parsers.jsonify_yaml_data(dump),
+                                   indent=args.json_indent),
+                        file=rendered)
+                else:
+                    print(
+                        json.dumps(Parsers.jsonify_yaml_data(dump)),
+                        file=rendered)
+        else:
+            if args.json_indent > -1:
+                json.dump(
+                    Parsers.jsonify_yaml_data(dumps[0]), rendered,
+                    indent=args.json_indent)
+            else:
+                json.dump(Parsers.jsonify_yaml_data(dumps[0]), rendered)
+    else:
+        if len(dumps) > 1:
+            yaml_editor.explicit_end = True  # type: ignore
+            yaml_editor.dump_all(dumps, rendered)
+        else:
+            yaml_editor.dump(dumps[0], rendered)
+
     # Save a backup of the overwrite file, if requested -- once the result is
     # known to be presentable, lest a run which fails before it writes leave a
     # (or replace an earlier) backup behind.
@@ -312,55 +343,9 @@ def write_output_document(
 
     if args.output:
         with open(args.output, 'w', encoding='utf-8') as out_fhnd:
-            if document_is_json:
-                if len(dumps) > 1:
-                    for dump in dumps:
-                        if args.json_indent > -1:
-                            print(
-                                json.dumps(Parsers.jsonify_yaml_data(dump),
-                                           indent=args.json_indent),
-                                file=out_fhnd)
-                        else:
-                            print(
-                                json.dumps(Parsers.jsonify_yaml_data(dump)),
-                                file=out_fhnd)
-                else:
-                    if args.json_indent > -1:
-                        json.dump(
-                            Parsers.jsonify_yaml_data(
-                                dumps[0]), out_fhnd, indent=args.json_indent)
-                    else:
-                        json.dump(
-                            Parsers.jsonify_yaml_data(dumps[0]), out_fhnd)
-            else:
-                if len(dumps) > 1:
-                    yaml_editor.explicit_end = True  # type: ignore
-                    yaml_editor.dump_all(dumps, out_fhnd)
-                else:
-                    yaml_editor.dump(dumps[0], out_fhnd)
+            out_fhnd.write(rendered.getvalue())
     else:
-        if document_is_json:
-            if len(dumps) > 1:
-                for dump in dumps:
-                    if args.json_indent > -1:
-                        print(
-                            json.dumps(Parsers.jsonify_yaml_data(dump),
-                                       indent=args.json_indent))
-                    else:
-                        print(json.dumps(Parsers.jsonify_yaml_data(dump)))
-            else:
-                if args.json_indent > -1:
-                    json.dump(
-                        Parsers.jsonify_yaml_data(dumps[0]), sys.stdout,
-                        indent=args.json_indent)
-                else:
-                    json.dump(Parsers.jsonify_yaml_data(dumps[0]), sys.stdout)
-        else:
-            if len(dumps) > 1:
-                yaml_editor.explicit_end = True  # type: ignore
-                yaml_editor.dump_all(dumps, sys.stdout)
-            else:
-                yaml_editor.dump(dumps[0], sys.stdout)
+        sys.stdout.write(rendered.getvalue())
 
 def get_doc_mergers(
     log: ConsolePrinter, yaml_editor: YAML, config: MergerConfig,
